@@ -31,7 +31,7 @@ func init() {
 	register(&core.Property{
 		ID:    "C20",
 		Title: "osmapi calls hit the documented endpoint and map statuses to typed errors",
-		Explanation: "Structural necessary conditions decided on /repo/osmapi (non-test files) against the external table tables/api06.json (API v0.6 paths) by symbolic execution: every function is run with symbolic inputs, package functions inlined, each undecided branch explored under both assumptions; the rules read the outcomes, so helper extraction/inlining (including helpers taking function literals, which are executed in place when called), method vs function form, grouped parameters, counting loops in any spelling (for/while/guard-and-break, labelled, first iteration peeled, callback iterators), named results, single-exit result variables, variadic helpers, presized lists written by index, ids copied into number lists, strings accumulated with +=, mutable struct values of the package (field stores, pointer methods), lookup tables (map/slice/array/struct literals held in locals or in unexported package variables that are only read, with function values as entries) instead of if-chains or switches, branch form (if/switch/type switch), local names, named constants and statement order do not matter. " +
+		Explanation: "Structural necessary conditions decided on /repo/osmapi (non-test files) against the external table tables/api06.json (API v0.6 paths) by symbolic execution: every function is run with symbolic inputs, package functions inlined, each undecided branch explored under both assumptions; the rules read the outcomes, so helper extraction/inlining (including helpers taking function literals, which are executed in place when called), method vs function form, grouped parameters, allocation-saving spellings (a URL built in one presized byte buffer, scratch arrays sliced [:0], append(dst, src...), strconv.Append*/Time.AppendFormat, lazily allocated lists), counting loops in any spelling (for/while/guard-and-break, labelled, first iteration peeled, callback iterators), named results, single-exit result variables, variadic helpers, presized lists written by index, ids copied into number lists, strings accumulated with +=, mutable struct values of the package (field stores, pointer methods), lookup tables (map/slice/array/struct literals held in locals or in unexported package variables that are only read, with function values as entries) instead of if-chains or switches, branch form (if/switch/type switch), local names, named constants and statement order do not matter. " +
 			"(H1) no path panics on an empty id list (`ids[0]`, `ids[1:]` are only evaluated after a test of the length passed); a path that makes no request never returns a status-typed error (endpoints) and, in getFromAPI, a path that never calls Client.Do returns neither a status-typed error nor nil — conditions on the URL (its length, its content) are explored both ways; on every path of every exported *Datasource endpoint method that returns a nil error exactly one request (call of the request function getFromAPI) was made, on every other path at most one, none in a loop; HTTP requests are created/sent only in getFromAPI and helpers only it calls, which performs Client.Do exactly once before decoding, tests Do's error and returns it; every package-level wrapper performs exactly `DefaultDatasource.<same name>(<its parameters in order>)` and returns its results. " +
 			"(H2) every path reaching Client.Do has tested the limiter field against nil and, when it is non-nil, called Wait(ctx) on it before and found its error nil; when Wait fails that error is returned and no request is sent. " +
 			"(H3) executing getFromAPI for every status 100..599, every path with a successful Do ends in exactly the typed error of the table (404, 403, 410, 414, other non-200, the latter recording the status) and in the XML decode of the response body into the item parameter only for 200; NotFound, executed for nil, a foreign error and every error type of the package, is true exactly for the 404 type; the request is a GET created by http.NewRequest; on every endpoint path the request's error is tested and, when non-nil, returned unchanged. " +
@@ -329,7 +329,7 @@ func c20ParamList(sig *types.Signature, ep *c20Endpoint) string {
 // c20Mutants is the sensitivity suite (c20_mutants*.go).
 func c20Mutants() []core.Mutant {
 	var out []core.Mutant
-	for _, l := range [][]core.Mutant{c20Mutants1(), c20Mutants2(), c20Mutants3(), c20Mutants4()} {
+	for _, l := range [][]core.Mutant{c20Mutants1(), c20Mutants2(), c20Mutants3(), c20Mutants4(), c20Mutants5()} {
 		out = append(out, l...)
 	}
 	return out
